@@ -121,6 +121,33 @@ class patched_wait:
         asyncio.wait = _ORIG_WAIT
 
 
+# Items are integers in the cases and in the Coq model.  Negative codes stand for payloads that a "falsy" / "is None"
+# test in the code could mistake for "no item" or "end of iteration": the real objects below are what the sources
+# produce, and what the helpers yield is mapped to the code again (by type and value).
+PAYLOADS = {-1: None, -2: '', -3: False, -4: (), -5: 0.0, -7: [], -8: {}}     # (not 0: plain small integers are items too)
+
+
+def to_payload(n):
+    return PAYLOADS[n] if isinstance(n, int) and not isinstance(n, bool) and n in PAYLOADS else n
+
+
+def of_payload(o):
+    for n, p in PAYLOADS.items():
+        if type(o) is type(p) and o == p:
+            return n
+    return o
+
+
+def with_specials(rng, items):
+    """replace some items by distinct special codes (each code at most once per case)"""
+    free = list(PAYLOADS)
+    out = list(items)
+    for i in range(len(out)):
+        if free and rng.random() < 0.2:
+            out[i] = free.pop(rng.randrange(len(free)))
+    return out
+
+
 class Src:
     """A scripted source: every anext waits for a gate (or uses a banked release), then
     suspends `hops` more times, then produces its next item / StopAsyncIteration."""
@@ -161,7 +188,7 @@ class Src:
             await asyncio.sleep(0)
         self.log.append(('complete', self.idx))
         if self.k < len(self.items):
-            v = self.items[self.k]
+            v = to_payload(self.items[self.k])
             self.k += 1
             return True, v
         self.exhausted = True
@@ -239,8 +266,8 @@ class MergeRun:
                 log.append(('error', repr(e)))
                 state['ended'] = True
             else:
-                if isinstance(r, tuple) and len(r) == 2 and isinstance(r[0], int) and isinstance(r[1], int):
-                    log.append(('yield', r[0], r[1]))
+                if isinstance(r, tuple) and len(r) == 2 and isinstance(r[0], int) and isinstance(of_payload(r[1]), int):
+                    log.append(('yield', r[0], of_payload(r[1])))
                 else:
                     log.append(('error', f'malformed item {r!r}'))
 
@@ -377,6 +404,8 @@ def gen_merge_case(rng, maxsrc, maxlen, patched=True):
     for i in range(n):
         ln = rng.choice([0, 0, 1, 1, 2, 3, rng.randint(0, maxlen)])
         items.append([(i + 1) * 100 + k if uniq else rng.randint(0, 2) for k in range(ln)])
+        if uniq and i == 0:
+            items[-1] = with_specials(rng, items[-1])
     total = sum(len(x) for x in items) + n
     sched = []
     for _ in range(rng.randint(0, 2 * total + 3)):
@@ -500,8 +529,8 @@ class AgenRun:
                     except KeyError:
                         log.append(('error', f'foreign object in {r!r}'))
                     state['phase'] = 'sets'
-                elif isinstance(r, int):
-                    log.append(('item', r)); state['phase'] = 'item'
+                elif isinstance(of_payload(r), int):
+                    log.append(('item', of_payload(r))); state['phase'] = 'item'
                 else:
                     log.append(('error', f'malformed item {r!r}'))
 
@@ -660,6 +689,8 @@ def gen_agen_case(rng, maxlen, patched=True):
     ln = rng.choice([0, 1, 2, 3, rng.randint(0, maxlen)])
     uniq = rng.random() < 0.8
     items = [100 + k if uniq else rng.randint(0, 2) for k in range(ln)]
+    if uniq:
+        items = with_specials(rng, items)
     failp = rng.choice([0.0, 0.1, 0.3, 0.6])
     sched = []
     ntask = 0
@@ -712,7 +743,7 @@ class LogIter:
                 v = self.items[self.k]
                 self.k += 1
                 self.log.append(('run', c, v))
-                return v
+                return to_payload(v)
             self.log.append(('run', c, None))
         raise StopIteration
 
@@ -725,11 +756,11 @@ async def run_toaiter_async(case):
     if case['iterable'] == 'log':
         it = aio.to_aiter(LogIter(case['items'], log, lock), thread=thread)
     elif case['iterable'] == 'list':
-        it = aio.to_aiter(list(case['items']), thread=thread)
+        it = aio.to_aiter([to_payload(x) for x in case['items']], thread=thread)
     elif case['iterable'] == 'gen':
-        it = aio.to_aiter((x for x in case['items']), thread=thread)
+        it = aio.to_aiter((to_payload(x) for x in case['items']), thread=thread)
     else:
-        it = aio.to_aiter(tuple(case['items']), thread=thread)
+        it = aio.to_aiter(tuple(to_payload(x) for x in case['items']), thread=thread)
     counter = [0]
 
     async def call():
@@ -750,7 +781,7 @@ async def run_toaiter_async(case):
                 log.append(('error', repr(e)))
         else:
             with lock:
-                log.append(('deliver', c, v))
+                log.append(('deliver', c, of_payload(v)))
 
     for k in case['rounds']:
         ts = [asyncio.ensure_future(call()) for _ in range(k)]
@@ -829,6 +860,8 @@ def gen_toaiter_case(rng, maxlen, allow_threads=True):
     ln = rng.choice([0, 1, 2, 3, rng.randint(0, maxlen)])
     uniq = rng.random() < 0.8
     items = [100 + k if uniq else rng.randint(0, 2) for k in range(ln)]
+    if uniq:
+        items = with_specials(rng, items)
     thread = allow_threads and rng.random() < 0.5
     if rng.random() < 0.5:
         rounds = [1] * (ln + rng.randint(0, 3))
